@@ -19,6 +19,9 @@ enum Job {
     Stroke(Entry, PathSpec, LineJoin, LineCap),
     FillShape(Shape),
     StrokeShape(Shape),
+    /// invalid tolerance (0, negative, NaN): an error return, never a panic, buffers untouched
+    FillTol(Entry, PathSpec, f32),
+    FillShapeTol(Shape, f32),
 }
 
 struct RunOut {
@@ -64,6 +67,8 @@ where
             run_stroke(*e, &mut StrokeTessellator::new(), spec, &o, rec)
         }
         Job::FillShape(s) => run_fill_shape(&mut FillTessellator::new(), s, &FillOptions::tolerance(0.05), rec),
+        Job::FillTol(e, spec, t) => run_fill(*e, &mut FillTessellator::new(), spec, &FillOptions::tolerance(*t), rec),
+        Job::FillShapeTol(s, t) => run_fill_shape(&mut FillTessellator::new(), s, &FillOptions::tolerance(*t), rec),
         Job::StrokeShape(s) => run_stroke_shape(&mut StrokeTessellator::new(), s, &StrokeOptions::tolerance(0.05).with_line_width(1.0), rec),
     }
 }
@@ -173,6 +178,16 @@ fn jobs(args: &Args, rng: &mut Rng) -> Vec<Job> {
     ] {
         v.push(Job::FillShape(s.clone()));
         v.push(Job::StrokeShape(s));
+    }
+    // invalid tolerances on polygonal input and on the shapes
+    let sq2 = PathSpec::from_polylines(&[vec![(0.0, 0.0), (4.0, 0.0), (4.0, 4.0), (0.0, 4.0)]], &[true]);
+    for t in [0.0f32, -1.0, f32::NAN] {
+        for e in FILL_ENTRIES {
+            v.push(Job::FillTol(e, sq2.clone(), t));
+        }
+        for s in [Shape::Rect(0.0, 0.0, 3.0, 2.0), Shape::Circle(1.0, 1.0, 2.0), Shape::Ellipse(0.0, 0.0, 3.0, 2.0, 0.5)] {
+            v.push(Job::FillShapeTol(s, t));
+        }
     }
     v
 }
